@@ -111,3 +111,15 @@ float c06_uninit_ok(const float *src, int n) {
   return sum;
 }
 }  // namespace verif_control
+
+// ---- CALLERSTATE control: the stale version of the caller's buffer is read before it is set -----------
+#include "draco/core/decoder_buffer.h"
+namespace verif_control {
+bool c06_callerstate_bad(draco::DecoderBuffer *buffer, uint16_t header_version) {
+  if (buffer->bitstream_version() != 0 && buffer->bitstream_version() != header_version) {
+    return false;
+  }
+  buffer->set_bitstream_version(header_version);
+  return true;
+}
+}  // namespace verif_control
